@@ -6,5 +6,5 @@ if ! PYTHONPATH=.deps /venv/bin/python -c 'import icontract' 2>/dev/null; then
     /venv/bin/pip install --quiet --no-index --find-links /opt/veriftools/wheels --target .deps icontract || exit 1
 fi
 /venv/bin/python -B -c 'import sys; sys.path.insert(0, "."); import vf.vterm, vf.env, vf.main' || exit 1
-/venv/bin/python -B -m unittest -q tests.test_vterm tests.test_env_scan 2>&1 | tail -3
+/venv/bin/python -B -m unittest -q tests.test_vterm tests.test_env_scan tests.test_models 2>&1 | tail -3
 exit 0
